@@ -28,7 +28,8 @@ import numpy as np
 
 from harness import bootstrap  # noqa: F401
 from harness import tla_values, tlc as tlcmod
-from harness.c08_nac import (NAC_FACTORS, NacCase, SpecCrystal, require_actions_fired, common_den, frac_project, rand_int_matrix,
+from harness.c08_nac import (NAC_FACTORS, NacCase, ShearedOracle, SpecCrystal, reciprocal_basis_not_reduced,
+                             require_actions_fired, common_den, frac_project, rand_int_matrix,
                              sym_pd_matrix)
 from harness.oracle import Oracle
 from harness.tla_values import to_tla
@@ -52,6 +53,8 @@ GEOMS = [
     ("cscl", diag(3, 1, 1), "quick"),
     ("tric", [[1, 1, 0], [0, 1, 0], [0, 0, 2]], "quick"),
     ("p4", diag(2, 1, 1), "quick"),          # specification-only crystal (NACOps!P4Crystal), zero force constants
+    # the same crystal in a NON-reduced (sheared, unimodular) basis, anisotropic supercells
+    ("tric", diag(2, 1, 1), "quick", [[1, 2, 0], [0, 1, 0], [1, 0, 1]]),
     ("cscl", diag(2, 2, 2), "thorough"),
     ("cscl", diag(4, 1, 1), "thorough"),
     ("cscl", [[2, 1, 0], [0, 2, 1], [1, 0, 2]], "thorough"),
@@ -63,6 +66,8 @@ GEOMS = [
     ("tetab", [[2, 1, 0], [-1, 2, 0], [0, 0, 1]], "thorough"),
     ("tric", diag(2, 2, 1), "thorough"),
     ("tric", [[2, 1, 0], [0, 1, 1], [1, 0, 2]], "thorough"),
+    ("tric", diag(1, 2, 1), "thorough", [[1, 0, 0], [2, 1, 0], [0, -1, 1]]),
+    ("tric", diag(3, 1, 2), "thorough", [[1, 1, 0], [0, 1, 0], [0, 2, 1]]),
 ]
 
 NATOMS = {"nacl": 8, "naclg": 8, "wz": 4, "tetab": 2, "cscl": 2, "tric": 3, "p4": 8}
@@ -80,13 +85,17 @@ def make_cfgs(ctx):
     if os.environ.get("C08_MAXCFG"):            # experiments only (mutation runs)
         geoms = geoms[: int(os.environ["C08_MAXCFG"])]
     cfgs = []
-    for k, (entry, S, _) in enumerate(geoms):
+    for k, geo in enumerate(geoms):
+        entry, S = geo[0], geo[1]
+        U = geo[3] if len(geo) > 3 else I3
         nat = NATOMS[entry]
         mode = "random"
         if k % 5 == 3:
             mode = "equal"      # all atoms the same charge: the acoustic sum rule leaves zero
         if k % 7 == 5:
             mode = "zero"
+        if len(geo) > 3:
+            mode = "random"          # sheared settings always carry non-zero charges
         if mode == "random":
             Z = [rand_int_matrix(rng) for _ in range(nat)]
         elif mode == "equal":
@@ -107,7 +116,7 @@ def make_cfgs(ctx):
             x = tuple(rng.randint(-40, 40) for _ in range(3))
             if all(sum(a * b for a, b in zip(x, t)) % PDEN != 0 for t in HALF_TRANSLATIONS):
                 probes.add(x)
-        cfgs.append(dict(id=k + 1, entry=entry, S=S, Z=Z, C=sym_pd_matrix(rng), dirs=sorted(dirs),
+        cfgs.append(dict(id=k + 1, entry=entry, S=S, U=U, Z=Z, C=sym_pd_matrix(rng), dirs=sorted(dirs),
                          lams=[-1, 2, 7], box=2, probes=sorted(probes), pden=PDEN, mode=mode))
     for fam in (("nacl", "naclg", "cscl"), ("wz", "tetab", "tric")):
         for c in cfgs:
@@ -118,15 +127,15 @@ def make_cfgs(ctx):
 
 
 def cfg_tla(c):
-    return ("[id |-> %d, entry |-> %s, S |-> %s, Z |-> %s, C |-> %s, dirs |-> %s, lams |-> %s, box |-> %d, "
+    return ("[U |-> %s, id |-> %d, entry |-> %s, S |-> %s, Z |-> %s, C |-> %s, dirs |-> %s, lams |-> %s, box |-> %d, "
             "probes |-> %s, pden |-> %d]" % (
-                c["id"], to_tla(c["entry"]), to_tla(c["S"]), to_tla(c["Z"]), to_tla(c["C"]),
+                to_tla(c["U"]), c["id"], to_tla(c["entry"]), to_tla(c["S"]), to_tla(c["Z"]), to_tla(c["C"]),
                 to_tla(set(map(tuple, c["dirs"]))), to_tla(set(c["lams"])), c["box"],
                 to_tla(set(map(tuple, c["probes"]))), c["pden"]))
 
 
 REQ_INVS = ["TypeOK", "ReqBornInvariant", "ReqEpsInvariant", "ReqBornASR", "ReqProjection", "ReqCentringConsistent",
-            "ReqHomogeneous", "ReqSymmetric", "ReqAcoustic", "ReqZeroBorn", "ReqCovariant", "ReqWangGamma",
+            "ReqHomogeneous", "ReqSymmetric", "ReqAcoustic", "ReqZeroBorn", "ReqCovariant", "ReqBasisCovariant", "ReqWangGamma",
             "ReqWangVanishesAtCommensurate", "ReqPhaseClassFunction"]
 PRE_INVS = ["PreDenominatorPositive", "PreTransGroupComplete", "PreShortestStable"]
 
@@ -141,7 +150,7 @@ IMPL_INVS = ["ImplHomogeneousLadder", "ImplDipoleSum", "ImplFullTermsDipoleSum",
              "ImplFullTermsZeroBornNoOp", "ImplBornExact", "ImplBornInvariant", "ImplBornASR", "ImplEpsInvariant", "ImplExactProjection",
              "ImplGammaLimit", "ImplHomogeneous", "ImplSymmetric", "ImplRoutesAgree", "ImplCommensurateNoOp",
              "ImplZeroBornNoOp"]
-CONF_INVS = ["ConformsBornSymmetrised", "ConformsEpsSymmetrised", "ConformsBornPrimitive", "ConformsNPrim",
+CONF_INVS = ["ImplGListComplete", "PreSomeNonReducedSetting", "ConformsBornSymmetrised", "ConformsEpsSymmetrised", "ConformsBornPrimitive", "ConformsNPrim",
              "ConformsCommImage", "ImplActive"]
 CFG_TRACE = "INIT TInit\nNEXT TNext\nCONSTANTS\n Cfgs <- MCCfgs\n Events <- MCEvents\nCHECK_DEADLOCK FALSE\n" + \
     "".join("INVARIANT %s\n" % i for i in IMPL_INVS + CONF_INVS)
@@ -200,7 +209,8 @@ def run(ctx):
     cfgs = make_cfgs(ctx)
     global FULLTERMS_CFGS, LADDER_CFGS
     FULLTERMS_CFGS = set(c["id"] for c in cfgs[:2]) if ctx.quick else None
-    LADDER_CFGS = set(c["id"] for c in cfgs if c["mode"] == "random" and c["entry"] in ("nacl", "wz", "tric")) \
+    LADDER_CFGS = (set(c["id"] for c in cfgs if c["U"] != I3) |
+                   set([c["id"] for c in cfgs if c["mode"] == "random" and c["entry"] in ("nacl", "wz")][:2])) \
         if ctx.quick else None
     mc = "---- MODULE MC_NAC ----\nEXTENDS NAC\nMCCfgs == {\n%s\n}\n====\n" % ",\n".join(cfg_tla(c) for c in cfgs)
     res = ctx.tlc("MC_NAC", cfg_text=cfg_model(ctx), extra_files={"MC_NAC.tla": mc}, requirement=False,
@@ -231,20 +241,27 @@ def run(ctx):
     events = []
     factors = list(NAC_FACTORS.items())
     oracles = {}
+    base = {}
     for c in cfgs:
         ent = c["entry"]
-        if ent not in oracles:
-            mats = [g["S"] for g in cfgs if g["entry"] == ent]
+        if ent not in base:
+            # supercells in the catalogue setting: S itself, or U^T S for a sheared setting
+            mats = [g["S"] if g["U"] == I3 else ShearedOracle.original_supercell(g["U"], g["S"])
+                    for g in cfgs if g["entry"] == ent]
             if ent == "p4":
-                oracles[ent] = SpecCrystal(by_cfg[c["id"]]["ready"]["cr"], seed=ctx.seed * 101 + len(oracles))
+                base[ent] = SpecCrystal(by_cfg[c["id"]]["ready"]["cr"], seed=ctx.seed * 101 + len(base))
             else:
-                oracles[ent] = Oracle(ent, mats, seed=ctx.seed * 101 + len(oracles), ctx=ctx)
+                base[ent] = Oracle(ent, mats, seed=ctx.seed * 101 + len(base), ctx=ctx)
+        key = (ent, to_tla(c["U"]))
+        if key not in oracles:
+            oracles[key] = base[ent] if c["U"] == I3 else ShearedOracle(base[ent], c["U"])
     cases = []
     for c in cfgs:
         fname, f = factors[(c["id"] + ctx.seed) % len(factors)]
-        case = NacCase(c, oracles[c["entry"]], factor=f)
+        case = NacCase(c, oracles[(c["entry"], to_tla(c["U"]))], factor=f)
         spec = by_cfg[c["id"]]
         events.append(replay_cfg(ctx, c, case, spec, margins, fname))
+        events[-1]["nonReducedReciprocal"] = reciprocal_basis_not_reduced(np.array(case.ph0.primitive.cell))
         cases.append((c, case, spec))
 
     ctx.extra["margins"] = {k: dict(observed=margins[k], tolerance=TOL.get(k)) for k in margins}
@@ -275,6 +292,8 @@ def run(ctx):
                 st = tr[-1][1]
                 wit = dict(cfg=st.get("cfg"), pc=st.get("pc"), n=st.get("n"), ob=st.get("ob"))
                 break
+        if nm == "PreSomeNonReducedSetting":
+            raise tlcmod.MachineryError("no configuration with a non-reduced reciprocal basis (vacuity guard)")
         if nm == "ImplActive":
             # non-vacuity guard: a machinery failure only when nothing else is wrong (a broken correction
             # - NaN, zero - fails it too and is reported through the requirement invariants)
@@ -282,7 +301,10 @@ def run(ctx):
                 raise tlcmod.MachineryError("non-vacuity guard ImplActive failed: %s"
                                             % json.dumps(wit, default=str)[:400])
             continue
-        ctx.violation(("nac:fullterms:" if nm.startswith("ImplFullTerms") else "nac:") + nm,
+        glb = any(e_["glist"]["theirs"] != e_["glist"]["mine"] for e_ in events)
+        pre_ = "nac:fullterms:" if nm.startswith("ImplFullTerms") else \
+            ("nac:glist:" if (nm == "ImplGListComplete" or (glb and nm == "ImplCommensurateNoOp")) else "nac:")
+        ctx.violation(pre_ + nm,
                       "C08 %s fails on values recorded from the implementation" % nm,
                       dict(invariant=nm, witness=wit))
     ctx.traces += len(events)
@@ -331,6 +353,22 @@ def replay_cfg(ctx, c, case, spec, margins, fname):
             except Exception as e:
                 ctx.violation("nac:setup-raises", "setting nac_params raised %r" % e, dict(cfg=c, method=method))
                 raise
+    # Gonze-Lee: is the list of reciprocal lattice points the full sphere |G| < G_cutoff ?
+    import itertools as _it
+    dgl = objs[("gonze", "full")].dynamical_matrix
+    plat = np.array(case.ph0.primitive.cell)
+    prec = np.linalg.inv(plat)
+    rng_ = [int(np.ceil(dgl._G_cutoff * np.linalg.norm(plat[i_]))) + 1 for i_ in range(3)]     # |n_i| = |a_i.G| <= |a_i||G|
+    mine = sum(1 for g_ in _it.product(*[range(-r_, r_ + 1) for r_ in rng_])
+               if np.linalg.norm(prec @ np.array(g_, float)) < dgl._G_cutoff)
+    ev["glist"] = dict(theirs=int(len(dgl._G_list)), mine=int(mine))
+    glist_bad = ev["glist"]["theirs"] != ev["glist"]["mine"]
+    if glist_bad:
+        ctx.violation("nac:glist:incomplete-sphere",
+                      "Gonze-Lee: the list of reciprocal lattice points misses points inside its own cutoff sphere "
+                      "(the cell is given in a non-reduced basis)",
+                      dict(cfg=c, G_cutoff=float(dgl._G_cutoff), in_list=ev["glist"]["theirs"], in_sphere=ev["glist"]["mine"],
+                           primitive_lattice=plat))
     # what the dynamical matrix object holds (after the API's own symmetrisation on the primitive cell)
     held = objs[("wang", "full")].dynamical_matrix.born
     num, den, ok3 = int_tensor(np.array([case.zh_of(z) for z in held]))
@@ -458,7 +496,8 @@ def replay_cfg(ctx, c, case, spec, margins, fname):
                     margins[key] = max(margins[key], e1)
                     zero = bool(e1 <= TOL[key])
                     if not zero:
-                        ctx.violation(("nac:replay-commensurate:%s" % method) if route != "fullterms" else "nac:fullterms:replay-commensurate",
+                        ctx.violation("nac:glist:replay-commensurate" if (glist_bad and method == "gonze") else
+                                      ("nac:replay-commensurate:%s" % method) if route != "fullterms" else "nac:fullterms:replay-commensurate",
                                       "the correction changes the dynamical matrix at a non-zero commensurate point",
                                       dict(cfg=c, label=st["n"], image=y, q_prim=q_p, kind=kind, method=method,
                                            layout=layout, route=route, rel_dev=float(e1), tolerance=TOL[key]))
@@ -582,8 +621,11 @@ def event_tla(e):
     comm = "{" + ", ".join("[m |-> %s, runs |-> %s]" % (to_tla(o["m"]), runs_tla(o["runs"])) for o in e["comm"]) + "}"
     gen = "{" + ", ".join("[x |-> %s, runs |-> %s, ew |-> %s]" % (to_tla(o["x"]), runs_tla(o["runs"]),
                                                                   runs_tla(o["ew"])) for o in e["gen"]) + "}"
-    return ("[cfg |-> %s, at |-> %s, nprim |-> %d, born |-> %s, eps |-> %s, bornPrim |-> %s,\n gam |-> %s,\n "
-            "comm |-> %s,\n gen |-> %s]" % (cfg_tla(c), to_tla(e["at"]), e["nprim"], to_tla(e["born"]),
+    return ("[glist |-> %s, nonReducedReciprocal |-> %s, cfg |-> %s, at |-> %s, nprim |-> %d, born |-> %s, eps |-> %s, bornPrim |-> %s,\n "
+            "gam |-> %s,\n "
+            "comm |-> %s,\n gen |-> %s]" % (to_tla(e["glist"]), "TRUE" if e["nonReducedReciprocal"] else "FALSE", cfg_tla(c),
+                                          to_tla(e["at"]),
+                                          e["nprim"], to_tla(e["born"]),
                                           to_tla(e["eps"]), to_tla(e["bornPrim"]), gam, comm, gen))
 
 
